@@ -4,4 +4,6 @@ functions over stated universes.  Labelled bounded in evidence, never counted as
 MONITORS = {
     "C01": ["monitors.c01"],
     "C02": ["monitors.c02"],
+    "C03": ["monitors.c03"],
+    "C08": ["monitors.c08"],
 }
